@@ -217,3 +217,27 @@ Proof.
   - intros H. injection H as <- <-.
     rewrite <- !app_assoc. rewrite firstn_skipn. rewrite firstn_skipn. auto.
 Qed.
+
+(* ---- writeCSV's scratch writer: the chunks it hands on are the record, in order ---- *)
+Lemma chunks_of_concat fuel n : forall p, concat (chunks_of fuel n p) = p.
+Proof.
+  induction fuel as [|f IH]; intros p; cbn [chunks_of].
+  - cbn. apply app_nil_r.
+  - destruct (length p <=? n)%nat.
+    + cbn. apply app_nil_r.
+    + cbn [concat]. rewrite IH. apply firstn_skipn.
+Qed.
+
+Lemma scratch_chunks_concat p : concat (scratch_chunks p) = p.
+Proof. apply chunks_of_concat. Qed.
+
+Lemma write_chunks_buf_nolimit cap cs : forall w k, sk_limit k = None -> bw_err w = false ->
+  exists w' k', write_chunks_buf cap w k cs = (w', k', true) /\ sk_limit k' = None /\ bw_err w' = false /\
+    sk_data k' ++ bw_buf w' = sk_data k ++ bw_buf w ++ concat cs.
+Proof.
+  induction cs as [|c cs IH]; intros w k Hl He; cbn [write_chunks_buf concat].
+  - exists w, k. rewrite app_nil_r. auto.
+  - destruct (bw_write_nolimit cap c w k Hl He) as (w1 & k1 & E & Hl1 & He1 & Hd1). rewrite E.
+    destruct (IH w1 k1 Hl1 He1) as (w' & k' & E' & Hl' & He' & Hd').
+    exists w', k'. repeat split; auto. rewrite Hd'. rewrite app_assoc, Hd1. rewrite <- !app_assoc. auto.
+Qed.
